@@ -3582,6 +3582,14 @@ class NonTensorData:
 _BREAK_ON_MEMMAP = True
 
 
+class _NonTensorStackData:
+    # what NonTensorStack._memmap_ pickles when a payload is itself a list: the nested
+    # list of payloads and its number of batch levels
+    def __init__(self, data, ndim):
+        self.data = data
+        self.ndim = ndim
+
+
 class NonTensorStack(LazyStackedTensorDict):
     """A thin wrapper around LazyStackedTensorDict to make stack on non-tensor data easily recognizable.
 
@@ -3760,7 +3768,20 @@ class NonTensorStack(LazyStackedTensorDict):
                     "stack_dim": self.stack_dim,
                     "device": device,
                 }
-                if _is_json_serializable(data):
+
+                def has_list_payload(item, depth):
+                    if depth == 0:
+                        return isinstance(item, list)
+                    return any(has_list_payload(sub, depth - 1) for sub in item)
+
+                if has_list_payload(data, self.ndim):
+                    # a payload that is itself a list cannot be told from one more batch
+                    # level in the nested list: such data is pickled together with the
+                    # number of batch levels (see _load_memmap)
+                    jsondict["data"] = "pickle.pkl"
+                    with open(prefix / "pickle.pkl", "wb") as f:
+                        pickle.dump(_NonTensorStackData(data, self.ndim), f)
+                elif _is_json_serializable(data):
                     jsondict["data"] = data
                 else:
                     jsondict["data"] = "pickle.pkl"
@@ -3807,13 +3828,16 @@ class NonTensorStack(LazyStackedTensorDict):
     ) -> LazyStackedTensorDict:
         data = metadata.get("data")
         if data is not None:
+            ndim = None
             if isinstance(data, str):
                 with open(prefix / data, "rb") as file:
                     data = pickle.load(file)
+                if isinstance(data, _NonTensorStackData):
+                    data, ndim = data.data, data.ndim
             device = metadata["device"]
             if device is not None:
                 device = torch.device(device)
-            return cls._from_list(data, device=device)
+            return cls._from_list(data, device=device, ndim=ndim)
         return super()._load_memmap(prefix=prefix, metadata=metadata, **kwargs)
 
     @classmethod
